@@ -33,5 +33,5 @@ git -C /repo checkout -- .
 det="MISSED"; [ $rc -eq 1 ] && det="DETECTED"
 rule=$(echo "$out" | grep -A1 "^VIOLATION" | grep "kind=" | head -3 | sed 's/^ *//' | tr '\n' '|')
 echo "RESULT $NAME: confirmed (applies, builds, suite passes, demo fails with / passes without); $PROP quick => $det $rule"
-echo "$det" > /verif/seeded/$NAME/.detected
-echo "$rule" > /verif/seeded/$NAME/.rule
+
+
